@@ -63,3 +63,101 @@ func MockCompilable(s *Schema) bool {
 	}
 	return true
 }
+
+// mockShape prepares the response types of a schema for generate_mock=true: while KF-C20-1 is open, field
+// shapes for which the mock generator emits code that does not type-check are rewritten into the nearest
+// shape it handles (construction instead of rejecting nine schemas out of ten); fields of child messages
+// get examples too, and a response may refer to the same child type twice.
+func (g *gen) mockShape() {
+	msgs := g.s.AllMessages()
+	seen := map[string]bool{}
+	sanitize := g.avoid("mock_unsupported_fields")
+	var visit func(fq string, top bool)
+	visit = func(fq string, top bool) {
+		if seen[fq] {
+			return
+		}
+		seen[fq] = true
+		m := msgs[fq]
+		if m == nil {
+			return
+		}
+		if sanitize {
+			mockSanitize(m)
+		}
+		if !top && g.p.Examples {
+			g.addExamples(m)
+		}
+		for _, f := range m.Fields {
+			if f.Kind == KMessage && f.Card == Singular && f.Oneof == "" && f.TypeRef != fq && g.oneIn(3, "sametwice") {
+				maxNum := int32(0)
+				names := map[string]bool{}
+				for _, o := range m.Fields {
+					names[o.Name] = true
+					if o.Number > maxNum {
+						maxNum = o.Number
+					}
+				}
+				name := f.Name + "_again"
+				for names[name] {
+					name += "x"
+				}
+				m.Fields = append(m.Fields, &Field{Name: name, Number: maxNum + 1, Kind: KMessage, TypeRef: f.TypeRef, Card: Singular})
+				g.tagf("mock:same_type_twice")
+				break
+			}
+		}
+		for _, f := range m.Fields {
+			if f.Kind == KMessage {
+				visit(f.TypeRef, false)
+			}
+		}
+	}
+	for _, f := range g.s.Files {
+		for _, sv := range f.Services {
+			for _, m := range sv.Methods {
+				visit(m.Output, true)
+			}
+		}
+	}
+}
+
+// mockSanitize mirrors MockCompilable: every shape it rejects is rewritten into one it accepts.
+func mockSanitize(m *Message) {
+	handled := func(k Kind) bool {
+		return k == KString || k == KInt32 || k == KInt64 || k == KBool || k == KFloat || k == KDouble
+	}
+	for _, f := range m.Fields {
+		if f.Kind == KTimestamp && (f.Card == Map || (f.Card == Singular && f.Oneof == "")) {
+			f.Kind = KString
+		}
+		if (f.Card == Optional || f.Oneof != "") && (handled(f.Kind) || f.Kind == KMessage) {
+			f.Card, f.Oneof = Singular, ""
+		}
+		if f.Card == Repeated && handled(f.Kind) {
+			f.Card = Singular
+		}
+		if f.Card == Map && f.Kind != KMessage && !handled(f.Kind) {
+			f.Kind, f.TypeRef = KString, ""
+		}
+		if f.Card == Singular && f.Oneof == "" {
+			switch f.Kind {
+			case KInt32:
+				f.Kind = KInt64
+			case KFloat:
+				f.Kind = KDouble
+			}
+		}
+	}
+	// oneofs that lost every member disappear
+	var keep []*Oneof
+	for _, o := range m.Oneofs {
+		for _, f := range m.Fields {
+			if f.Oneof == o.Name {
+				keep = append(keep, o)
+				break
+			}
+		}
+	}
+	m.Oneofs = keep
+}
